@@ -264,11 +264,16 @@ def check_seq(prop, tier):
         res.add(build_s=round(build_harness(), 1))
         # 1. every history of the bounded alphabet
         base = "MCSeq_quick" if tier == "quick" else "MCSeq_thorough"
-        cfg = seq_cfg(work, "mc", base, SEQ_INV[prop], emit=True)
+        cfg = seq_cfg(work, "mc", "MCSeq_quick", SEQ_INV[prop], emit=True)
         r = require_ok(tlc("MCSeq", cfg, work, workers=8, timeout=6000), "model check of %s" % prop)
         res.add(states=r["distinct"], transitions=r["generated"], depth=r["depth"], mc_wall_s=round(r["wall"], 1),
                 checker_cmd="tlc MCSeq (%s) INVARIANTS %s" % (base, " ".join(SEQ_INV[prop])))
         replays = r["prints"].get("REPLAY", [])
+        if tier == "thorough":
+            # the deeper configuration (ids <= 3, <= 5 calls, ~870k states) is checked without emitting replays
+            cfgt = seq_cfg(work, "mct", "MCSeq_thorough", SEQ_INV[prop], emit=False)
+            rt = require_ok(tlc("MCSeq", cfgt, work, workers=8, timeout=6000), "model check of %s (thorough bounds)" % prop)
+            res.add(states=rt["distinct"], transitions=rt["generated"], depth=rt["depth"], mc_wall_s=round(rt["wall"], 1))
         if tier == "thorough":
             cfgb = seq_cfg(work, "mcb", "MCSeq_quick", SEQ_INV[prop], subst={"Shapes": "ShapesB", "WithUpdates": "TRUE", "MaxLen": "3"}, emit=True)
             rb = require_ok(tlc("MCSeq", cfgb, work, workers=8, timeout=6000), "model check (second kind representatives, all update kinds)")
